@@ -42,6 +42,7 @@ MkScene(cov, face, dp) ==
    col |-> [t \in Tris |-> 100 + t],
    nfr |-> [t \in Tris |-> Cardinality({p \in Pix : cov[t][p] = 1})],
    npc |-> [t \in Tris |-> 1 + (t % 2)],
+   ndeg |-> [t \in Tris |-> 0],
    face |-> face,
    far |-> [t \in Tris |->
               LET S == {D(t, p) : p \in {q \in Pix : cov[t][q] = 1}} IN
